@@ -7,6 +7,7 @@ FI = "./pkg/filter"
 API = "./pkg/api"
 PD = "./pkg/pdfcpu"
 SG = "./pkg/pdfcpu/sign"
+PR = "./pkg/pdfcpu/primitives"
 
 PROPS = {
     "C12": dict(
@@ -106,6 +107,20 @@ PROPS = {
             dict(name="VerifSignedDataCoverage", bounds=dict(quick=dict(N=4, H=1), thorough=dict(N=6, H=2)), opts=dict(unwind=600)),
             dict(name="VerifByteRangeArithmetic"),
             dict(name="VerifRevisionBoundary", pkg=PD, opts=dict(unwind=100)),
+        ],
+    ),
+    "C30": dict(
+        pkg=SG,
+        explanation="revocationDialContext / validateRevocationIPs / revocationBlockedIP and the remote-image twins (rejectImageBoxIPs, imageBoxDialContext) executed symbolically with the resolver and dialer replaced by stubs: 1..K DNS answers, each a 4- or 16-byte address with every byte symbolic (IPv4-mapped IPv6 included), compared with an independent prefix classifier; URL rules (scheme symbolic up to 5 bytes, userinfo, host forms), redirect limit, and Proxy == nil of the constructed transports",
+        outside="url.Parse and net/http's use of the DialContext / CheckRedirect hooks; address classes that are not in the property's list (0.0.0.0/8, broadcast, IPv4-compatible ::a.b.c.d); DNS rebinding between lookup and dial (the code dials the validated address)",
+        assumptions=["the resolver returns addresses of length 4 or 16", "stubs: resolver, dialer, net.IP.String, url.URL.Redacted"],
+        harnesses=[
+            dict(name="VerifRevocationDial", bounds=dict(quick=dict(K=2), thorough=dict(K=3)), opts=dict(unwind=200), nodiff=True),
+            dict(name="VerifRevocationURL", opts=dict(unwind=200), nodiff=True),
+            dict(name="VerifRevocationClientNoProxy", nodiff=True),
+            dict(name="VerifImageBoxIPs", pkg=PR, bounds=dict(quick=dict(K=2), thorough=dict(K=3)), opts=dict(unwind=200)),
+            dict(name="VerifImageBoxDial", pkg=PR, bounds=dict(quick=dict(K=2), thorough=dict(K=3)), opts=dict(unwind=200), nodiff=True),
+            dict(name="VerifImageBoxURL", pkg=PR, opts=dict(unwind=200), nodiff=True),
         ],
     ),
     "C31": dict(
